@@ -100,6 +100,37 @@ fn main() {
             }
             println!("{}", serde_json::to_string_pretty(&serde_json::Value::Object(out)).unwrap());
         }
+        Some("dump-fn-params") => {
+            // development aid: regenerate refdata/fn_params.json from the current (reviewed) tree
+            let mut out = serde_json::Map::new();
+            std::env::remove_var("VERIF_DIR");
+            let mut files: Vec<String> = vec![];
+            for d in ["parser/src", "ast/src", "core/src", "format/src", "literal/src", "vendored/src/source_location", "vendored/src/text_size"] {
+                if let Ok(rd) = std::fs::read_dir(repo.join(d)) {
+                    for e in rd.flatten() {
+                        let p = e.path();
+                        if p.extension().map_or(false, |x| x == "rs") {
+                            files.push(format!("{}/{}", d, p.file_name().unwrap().to_string_lossy()));
+                        }
+                    }
+                }
+            }
+            files.sort();
+            for rel in files {
+                if rel.ends_with("python.rs") {
+                    continue;
+                }
+                if let Ok(text) = std::fs::read_to_string(repo.join(&rel)) {
+                    if let Ok(file) = syn::parse_file(&text) {
+                        let v: Vec<serde_json::Value> = srcmodel::fn_params(&file).into_iter().filter(|(_, _, ps)| !ps.is_empty()).map(|(o, n, ps)| serde_json::json!([o, n, ps.into_iter().map(|(a, b)| vec![a, b]).collect::<Vec<_>>()])).collect();
+                        if !v.is_empty() {
+                            out.insert(rel.to_string(), serde_json::Value::Array(v));
+                        }
+                    }
+                }
+            }
+            println!("{}", serde_json::to_string(&serde_json::Value::Object(out)).unwrap());
+        }
         Some("dump-fn") => {
             // development aid: normalised compact text of the functions named `name` in a source file
             let rel = args.get(2).cloned().unwrap_or_else(|| usage());
